@@ -28,9 +28,11 @@ NMAX = {"quick": 8, "thorough": 12}
 TMAX = 4
 RULE = (
     "complete grid n_steps 1..8 (quick) / 1..12 (thorough) x burn_in 0..n-1 x thinning 1..4 (every combination has a "
-    "non-empty result) for each (model, kernel) pair: models scalar (3 scalar sites + observed), vector (normal.vmap "
-    "3-vector + multivariate_normal 2-vector), scan (nested @gen call + Scan of length 3); kernels mh, mala, hmc and "
-    "three composites (two kernels in sequence, extra save(...) diagnostics, namespaced sub-kernels); n_chains=2 on the "
+    "non-empty result) enumerated for each of 3 models: scalar (3 scalar sites + observed), vector (normal.vmap "
+    "3-vector + multivariate_normal 2-vector), scan (nested @gen call + Scan of length 3); the kernel of a grid point "
+    "rotates with (n+b+t) over that model's kernels (quick: 3 kernels, one per point; thorough: 4 kernels, two per "
+    "point) drawn from mh, mala, hmc and three composites (two kernels in sequence, extra save(...) diagnostics, "
+    "namespaced sub-kernels); every (model, kernel, n) also runs the un-thinned reference (n,0,1); n_chains=2 on the "
     "full (b,t) grid of small n and n_chains=3/4 on seed-sampled grid points; key, observation and arguments drawn from "
     "VERIF_SEED per case; distinct_nontrivial = distinct (model,kernel,n,b,t,c) with b>0 or t>1 whose un-thinned run "
     "visits >= 2 different states (so a misaligned slice is visible)"
@@ -42,77 +44,90 @@ ASSUMPTIONS = [
     "a composite kernel's accept is the last value it saves under the name 'accept' (later write wins, C19)",
     "kernel correctness itself (the law of one step) is C09's subject; here a step is whatever the kernel did",
 ]
-PAIRS = {
-    "quick": [
-        ("scalar", "mh"), ("scalar", "mala"), ("scalar", "seq_diag"),
-        ("vector", "mh"), ("vector", "hmc"), ("vector", "seq_always"),
-        ("scan", "mh"), ("scan", "ns_moved"),
-    ],
-    "thorough": [
-        ("scalar", "mh"), ("scalar", "mala"), ("scalar", "hmc"), ("scalar", "seq_diag"),
-        ("vector", "mh"), ("vector", "mala"), ("vector", "hmc"), ("vector", "seq_always"),
-        ("scan", "mh"), ("scan", "mala"), ("scan", "hmc"), ("scan", "ns_moved"),
-    ],
+KERNELS_OF = {
+    "quick": {
+        "scalar": ["mh", "mala", "seq_diag"],
+        "vector": ["mh", "hmc", "seq_always"],
+        "scan": ["mh", "hmc", "ns_moved"],
+    },
+    "thorough": {
+        "scalar": ["mh", "mala", "hmc", "seq_diag"],
+        "vector": ["mh", "mala", "hmc", "seq_always"],
+        "scan": ["mh", "mala", "hmc", "ns_moved"],
+    },
 }
+REPL = {"quick": 1, "thorough": 2}  # kernels per grid point
 MULTI_FULL_N = {"quick": [3], "thorough": [1, 2, 3, 4]}  # n_chains = 2, complete (b, t) grid
 MULTI_SAMPLED_C = {"quick": [3], "thorough": [3, 4]}  # sampled grid points
 MULTI_SAMPLED_PTS = {"quick": 4, "thorough": 8}
+MULTI_SAMPLED_KERNELS = {"quick": 1, "thorough": 2}
 
 
 def grid(n):
     return [[b, t] for t in range(1, TMAX + 1) for b in range(n)]
 
 
-def _npoints(tier):
-    return sum(len(grid(n)) for n in range(1, NMAX[tier] + 1))
-
-
-FLOORS = {
-    tier: {
-        "grid_points": len(PAIRS[tier]) * _npoints(tier),
-        "multi_points": len(PAIRS[tier])
-        * (sum(len(grid(n)) for n in MULTI_FULL_N[tier]) + len(MULTI_SAMPLED_C[tier]) * (MULTI_SAMPLED_PTS[tier] + 1)),
-        "retained_states_vs_log": 3 * len(PAIRS[tier]) * _npoints(tier),
-        "accept_flags_vs_log": 3 * len(PAIRS[tier]) * _npoints(tier),
-        "slice_identities": len(PAIRS[tier]) * (_npoints(tier) - NMAX[tier]),
-        "log_steps_checked": 5 * len(PAIRS[tier]) * _npoints(tier),
-        "effect_checks": 1000,
-        "runs_with_mixed_accepts": 200,
-        "chain_pairs_compared": 40,
-        "jit_points": len(PAIRS[tier]) * (NMAX[tier] - 1),
-    }
-    for tier in ("quick", "thorough")
-}
-TIMEOUT_S = {"quick": 1500, "thorough": 5400}
-EXTRA_COVERAGE = {
-    "grid": {"n_steps_max": NMAX, "thinning_max": TMAX, "burn_in": "0..n-1", "exhaustive_within_bounds": True},
-    "pairs": {k: ["/".join(p) for p in v] for k, v in PAIRS.items()},
-}
+def kernels_of_point(tier, model, n, b, t):
+    ks = KERNELS_OF[tier][model]
+    return [ks[(n + b + t + r * (len(ks) // 2)) % len(ks)] for r in range(REPL[tier])]
 
 
 def plan(tier, seed):
     rng = np.random.default_rng([seed, 18])
     nmax = NMAX[tier]
     cases = []
-    for m, k in PAIRS[tier]:
-        for n in range(1, nmax + 1):
-            pts = grid(n)
-            # one grid point is re-run under jax.jit (checked against its own log)
-            jp = pts[int(rng.integers(1, len(pts)))] if len(pts) > 1 else None
-            cases.append({"model": m, "kernel": k, "n": n, "c": 1, "points": pts, "jit_point": jp, "cost": len(pts) + 2})
-        for n in MULTI_FULL_N[tier]:
-            cases.append({"model": m, "kernel": k, "n": n, "c": 2, "points": grid(n), "jit_point": None,
-                          "cost": 2.5 * len(grid(n))})
+    for m, ks in KERNELS_OF[tier].items():
+        for c, ns in ((1, range(1, nmax + 1)), (2, MULTI_FULL_N[tier])):
+            for n in ns:
+                for k in ks:
+                    pts = [p for p in grid(n) if k in kernels_of_point(tier, m, n, p[0], p[1])]
+                    if not pts:
+                        continue
+                    # one grid point per single-chain case with even n is re-run under jax.jit
+                    jp = pts[int(rng.integers(0, len(pts)))] if (c == 1 and n % 2 == 0) else None
+                    cases.append({"model": m, "kernel": k, "n": n, "c": c, "points": pts, "jit_point": jp,
+                                  "cost": (1.0 if c == 1 else 2.5) * (len(pts) + 1 + (jp is not None))})
         for c in MULTI_SAMPLED_C[tier]:
-            n = int(rng.integers(4, nmax + 1))
-            g = [p for p in grid(n) if p != [0, 1]]
-            idx = rng.choice(len(g), size=MULTI_SAMPLED_PTS[tier], replace=False)
-            pts = [[0, 1]] + [g[int(i)] for i in sorted(idx)]
-            cases.append({"model": m, "kernel": k, "n": n, "c": c, "points": pts, "jit_point": None,
-                          "cost": 3.0 * len(pts)})
+            for k in rng.choice(ks, size=MULTI_SAMPLED_KERNELS[tier], replace=False):
+                n = int(rng.integers(4, nmax + 1))
+                g = [p for p in grid(n) if p != [0, 1]]
+                idx = rng.choice(len(g), size=MULTI_SAMPLED_PTS[tier], replace=False)
+                pts = [g[int(i)] for i in sorted(idx)]
+                cases.append({"model": m, "kernel": str(k), "n": n, "c": c, "points": pts, "jit_point": None,
+                              "cost": 3.0 * (len(pts) + 1)})
     # round-robin sharding: largest first keeps the shards level
     cases.sort(key=lambda d: -d["cost"])
     return cases
+
+
+def _floors(tier):
+    cs = plan(tier, 0)
+    single = sum(len(c["points"]) for c in cs if c["c"] == 1)
+    multi = sum(len(c["points"]) for c in cs if c["c"] > 1)
+    retained = sum(len(range(b, c["n"], t)) for c in cs if c["c"] == 1 for b, t in c["points"])
+    assert single == REPL[tier] * 3 * sum(len(grid(n)) for n in range(1, NMAX[tier] + 1))
+    return {
+        "grid_points": single,
+        "multi_points": multi,
+        "reference_runs": len(cs),
+        "retained_states_vs_log": int(0.9 * retained),
+        "accept_flags_vs_log": int(0.9 * retained),
+        "slice_identities": int(0.9 * (single + multi)),
+        "log_steps_checked": 4 * single,
+        "effect_checks": single,
+        "rate_checks": single + multi,
+        "runs_with_mixed_accepts": single // 4,
+        "chain_pairs_compared": multi // 4,
+        "jit_points": sum(1 for c in cs if c["jit_point"]),
+    }
+
+
+FLOORS = {tier: _floors(tier) for tier in ("quick", "thorough")}
+TIMEOUT_S = {"quick": 1500, "thorough": 5400}
+EXTRA_COVERAGE = {
+    "grid": {"n_steps_max": NMAX, "thinning_max": TMAX, "burn_in": "0..n-1", "exhaustive_within_bounds_per_model": True},
+    "kernels": KERNELS_OF,
+}
 
 
 # ---------------------------------------------------------------------------
@@ -160,7 +175,7 @@ class _Case:
         self.ctx.violation(key, {**self.base, **detail})
 
 
-def _run(n, b, t, c, tr0, key_int, kernel, jit=False):
+def _run(n, b, t, c, tr0, key_int, kernel, shapes, jit=False):
     """Code under test: one call of seed(chain(kernel)).  Returns (result, log)."""
     jax, seed, const, chain, L = _W["jax"], _W["seed"], _W["const"], _W["chain"], _W["L"]
     L.LOG.clear()
@@ -173,7 +188,7 @@ def _run(n, b, t, c, tr0, key_int, kernel, jit=False):
         res = fn(key, tr0, const(n), **kw)
     jax.block_until_ready(res)
     jax.effects_barrier()
-    log = list(L.LOG)
+    log = [(L.unpack(i, shapes), L.unpack(o, shapes), a) for i, o, a in L.LOG]
     L.LOG.clear()
     return res, log
 
@@ -272,8 +287,8 @@ def _check_run(ctx, cv, res, log, tr0_leaves, labels, n, b, t, c, effect, tag):
                     cats = sorted({labels[k][0] for k in bad})
                     matches = [s2 for s2 in range(len(ln)) if _same_state(got, ln[s2][1])]
                     cv.violation(
-                        pfx + "traces|" + "+".join(cats) + "-differ-from-logged-iterate",
-                        **where, lane=li, retained_index=j, expected_step=s,
+                        pfx + "traces|differ-from-logged-iterate",
+                        **where, differing_parts=cats, lane=li, retained_index=j, expected_step=s,
                         steps_whose_logged_output_equals_result=matches[:6],
                         first_input_equals_result=_same_state(got, ln[0][0]),
                         leaf=labels[bad[0]][1],
@@ -308,18 +323,25 @@ def _check_run(ctx, cv, res, log, tr0_leaves, labels, n, b, t, c, effect, tag):
         cv.violation(pfx + "n_steps|not-retained-count", **where, observed=repr(n_steps_v), expected=m)
     if not (isinstance(n_chains_v, (int, np.integer)) and int(n_chains_v) == c):
         cv.violation(pfx + "n_chains|wrong", **where, observed=repr(n_chains_v), expected=c)
-    # ---- chains use different randomness
+    # ---- chains use different randomness: when two chains accept a move at the same step, no
+    # choice leaf that moved in both may land on the bit-identical value
     if c > 1:
+        ch = [k for k in range(len(labels)) if labels[k][0] == "choices"]
         for p in range(c):
             for q in range(p + 1, c):
                 both = [s for s in range(len(lanes[p])) if bool(lanes[p][s][2]) and bool(lanes[q][s][2])]
                 if not both:
                     continue
                 ctx.count("chain_pairs_compared")
-                same = [s for s in both if _same_state(lanes[p][s][1], lanes[q][s][1])]
-                if same:
-                    cv.violation("chain-multi|chains-share-randomness", **where, lanes=[p, q], step=same[0],
-                                 note="both chains accepted a move at this step and landed on the bit-identical state")
+                for s in both:
+                    (pi, po, _), (qi, qo, _) = lanes[p][s], lanes[q][s]
+                    shared = [k for k in ch if not _same(pi[k], po[k]) and not _same(qi[k], qo[k]) and _same(po[k], qo[k])]
+                    if shared:
+                        cv.violation("chain-multi|chains-share-randomness", **where, lanes=[p, q], step=s,
+                                     leaf=labels[shared[0]][1], value=po[shared[0]].tolist(),
+                                     note="both chains accepted a move at this step and this leaf moved to the "
+                                          "bit-identical value in both")
+                        break
     all_acc = [bool(x[2]) for ln in lanes for x in ln]
     if any(all_acc) and not all(all_acc):
         ctx.count("runs_with_mixed_accepts")
@@ -338,6 +360,7 @@ def run_case(case, ctx):
     effect = L.KERNELS[(model, kname)]["effect"]
     tr0_leaves = L.np_leaves(tr0)
     labels = L.leaf_labels(tr0)
+    shapes = [x.shape for x in tr0_leaves]
     base = {"model": model, "kernel": kname, "chain_key": key_int, **info}
     cv = _Case(ctx, base)
     pfx = "chain|" if c == 1 else "chain-multi|"
@@ -345,7 +368,7 @@ def run_case(case, ctx):
 
     def go(b, t, jit=False):
         ctx.evaluation()
-        out = ctx.call(_run, n, b, t, c, tr0, key_int, kernel, jit)
+        out = ctx.call(_run, n, b, t, c, tr0, key_int, kernel, shapes, jit)
         if hasattr(out, "brief"):
             if "c18 harness" in out.msg:
                 raise RuntimeError(out.msg)
@@ -357,9 +380,11 @@ def run_case(case, ctx):
 
     ref = go(0, 1)  # the un-thinned run, validated step by step against its own log
     if ref is not None:
-        ctx.count(counter)
+        ctx.count("reference_runs")
     for b, t in case["points"]:
         if (b, t) == (0, 1):
+            if ref is not None:
+                ctx.count(counter)
             continue
         got = go(b, t)
         if got is None:
